@@ -65,6 +65,34 @@ H_IS_RENEW = ("    def is_renew_secret(self, candidate_secret):\n"
 SER_HASH = ("        if isinstance(lease, LeaseInfo):\n"
             "            # v2 of the immutable schema stores lease secrets hashed.  If\n")
 
+# a sibling of _change_container_size: give the space behind truncated share data back (the mechanism of seeded C25-G)
+SHRINK_AT = "    def _write_share_data(self, f, offset, data):\n"
+SHRINK_CALL = (MUT, "                    self._write_data_length(f, new_length)\n",
+               "                    self._write_data_length(f, new_length)\n                    self._shrink_container(f, new_length)\n")
+SHRINK_HEAD = ("    def _shrink_container(self, f, new_container_size):\n"
+               "        old_extra_lease_offset = self._read_extra_lease_offset(f)\n"
+               "        new_extra_lease_offset = self.DATA_OFFSET + new_container_size\n"
+               "        if new_extra_lease_offset >= old_extra_lease_offset:\n"
+               "            return\n"
+               "        num_extra_leases = self._read_num_extra_leases(f)\n"
+               "        leases_size = 4 + num_extra_leases * self.LEASE_SIZE\n"
+               "        f.seek(old_extra_lease_offset)\n"
+               "        extra_lease_data = f.read(leases_size)\n"
+               "        f.seek(new_extra_lease_offset)\n"
+               "        f.write(extra_lease_data)\n"
+               "        f.flush()\n"
+               "        self._write_extra_lease_offset(f, new_extra_lease_offset)\n")
+
+# the same as a public maintenance method that opens the container itself
+COMPACT_HEAD = ("    def compact(self):\n        with open(self.home, 'rb+') as f:\n"
+                "            new_container_size = self._read_data_length(f)\n"
+                + "".join("    " + ln + "\n" for ln in SHRINK_HEAD.split("\n")[1:-1]))
+
+
+def shrink(tail, head=SHRINK_HEAD):
+    return head + tail + "\n" + SHRINK_AT
+
+
 MUTANTS = [
     # ---- C25.1 renew, else add
     M("add-even-when-renewed", MUT, MUT_AOR,
@@ -258,6 +286,49 @@ MUTANTS = [
     M("copy-skipped-when-blocks-overlap", MUT, "        f.seek(new_extra_lease_offset)\n        f.write(extra_lease_data)\n",
       "        if new_extra_lease_offset - old_extra_lease_offset >= leases_size:\n            f.seek(new_extra_lease_offset)\n"
       "            f.write(extra_lease_data)\n", "C25.10"),
+    # ---- C25.10 holds every function that repoints the extra-lease offset, whatever it is called (seeded C25-G)
+    M("shrink-zeroes-whole-old-block-after-copy", MUT, SHRINK_AT,
+      shrink("        f.seek(old_extra_lease_offset)\n        f.write(b'\\x00' * leases_size)\n        f.flush()\n"
+             "        f.truncate(new_extra_lease_offset + leases_size)\n"), "C25.10", edits=[SHRINK_CALL],
+      note="seeded C25-G: truncating the data by less than the block size makes the old and new blocks overlap, and zeroing "
+           "the whole old block wipes the tail of the copy"),
+    M("compact-blanks-old-block-after-copy", MUT, SHRINK_AT,
+      shrink("        blank = bytes(leases_size)\n        f.seek(old_extra_lease_offset)\n        f.write(blank)\n").replace(
+          "_shrink_container", "_compact").replace("new_container_size", "size").replace("extra_lease_data", "block"),
+      "C25.10", edits=[(SHRINK_CALL[0], SHRINK_CALL[1], SHRINK_CALL[2].replace("_shrink_container", "_compact"))],
+      note="the same slip under another name and spelling"),
+    M("shrink-truncates-at-new-offset", MUT, SHRINK_AT, shrink("        f.truncate(new_extra_lease_offset)\n"), "C25.10",
+      edits=[SHRINK_CALL], note="the file is cut where the relocated block begins: every extra lease is cut off"),
+    M("shrink-truncates-without-count-field", MUT, SHRINK_AT,
+      shrink("        f.truncate(new_extra_lease_offset + num_extra_leases * self.LEASE_SIZE)\n"), "C25.10", edits=[SHRINK_CALL]),
+    M("shrink-repoints-without-copy", MUT, SHRINK_AT,
+      "    def _shrink_container(self, f, new_container_size):\n"
+      "        new_extra_lease_offset = self.DATA_OFFSET + new_container_size\n"
+      "        if new_extra_lease_offset < self._read_extra_lease_offset(f):\n"
+      "            self._write_extra_lease_offset(f, new_extra_lease_offset)\n"
+      "            f.truncate(new_extra_lease_offset)\n\n" + SHRINK_AT, "C25.10", edits=[SHRINK_CALL]),
+    M("shrink-copies-records-only", MUT, SHRINK_AT,
+      shrink("        f.truncate(new_extra_lease_offset + leases_size)\n").replace(
+          "leases_size = 4 + num_extra_leases", "leases_size = num_extra_leases"), "C25.10", edits=[SHRINK_CALL]),
+    M("shrink-header-written-directly", MUT, SHRINK_AT,
+      shrink("        f.truncate(new_extra_lease_offset + leases_size)\n").replace(
+          "        self._write_extra_lease_offset(f, new_extra_lease_offset)\n",
+          "        f.seek(self.EXTRA_LEASE_OFFSET)\n        f.write(struct.pack(\">Q\", new_extra_lease_offset))\n"),
+      "ANALYSIS-ERROR", edits=[SHRINK_CALL], note="a relocation that bypasses the header-offset writer is not decided: fail closed"),
+    M("benign-shrink-copy-repoint-truncate", MUT, SHRINK_AT,
+      shrink("        f.truncate(new_extra_lease_offset + leases_size)\n"), None, edits=[SHRINK_CALL],
+      note="a sound shrinking sibling: whole block read first, copied, header repointed, file cut at the end of the copy"),
+    M("benign-shrink-zeroes-only-behind-the-copy", MUT, SHRINK_AT,
+      shrink("        start = max(old_extra_lease_offset, new_extra_lease_offset + leases_size)\n"
+             "        f.seek(start)\n        f.write(b'\\x00' * (old_extra_lease_offset + leases_size - start))\n        f.flush()\n"
+             "        f.truncate(new_extra_lease_offset + leases_size)\n"), None, edits=[SHRINK_CALL],
+      note="the repaired form of seeded C25-G: only the part of the old block that lies behind the copy is zeroed"),
+    M("benign-compact-opens-the-file-itself", MUT, SHRINK_AT,
+      shrink("            f.truncate(new_extra_lease_offset + leases_size)\n", COMPACT_HEAD), None,
+      note="a relocator is known by the header-offset writer it calls, whatever it calls the file object"),
+    M("compact-opens-the-file-itself-zeroes-old-block", MUT, SHRINK_AT,
+      shrink("            f.seek(old_extra_lease_offset)\n            f.write(b'\\x00' * leases_size)\n"
+             "            f.truncate(new_extra_lease_offset + leases_size)\n", COMPACT_HEAD), "C25.10"),
     # ---- C25.11 a matched renew secret never ends in 'no such lease'
     M("immutable-return-only-when-extended", IMM, "                        self._write_lease_record(f, i, lease)\n                return\n",
       "                        self._write_lease_record(f, i, lease)\n                    return\n", "C25.11"),
